@@ -17,8 +17,15 @@ import (
 	"golang.org/x/tools/go/ssa/ssautil"
 )
 
-const repoDir = "/repo"
-const verifDir = "/verif"
+var repoDir = envOr("GOVC_REPO", "/repo")
+var verifDir = envOr("GOVC_VERIF", "/verif")
+
+func envOr(k, d string) string {
+	if v := os.Getenv(k); v != "" {
+		return v
+	}
+	return d
+}
 
 type Spec struct {
 	ID        string   `json:"id"`
@@ -173,6 +180,7 @@ func main() {
 		fmt.Println("usage: govc check|baseline|dump|replay ...")
 		os.Exit(2)
 	}
+	ensureModels2()
 	switch os.Args[1] {
 	case "check", "baseline":
 		fs := flag.NewFlagSet("check", flag.ExitOnError)
@@ -242,6 +250,10 @@ func cmdCheck(id, tier string, writeBaseline, verbose bool) int {
 		eng, pk, err = loadEngine(spec.Packages, gOverlay)
 		if err != nil {
 			fmt.Println("ERROR loading packages:", err)
+			if gSelftest {
+				cr.errors = append(cr.errors, "does not compile: "+err.Error())
+				gLastResult = cr
+			}
 			return 2
 		}
 		for _, fkey := range spec.Functions {
@@ -532,7 +544,11 @@ func writeEvidence(cr *checkResult, id, tier string, seed int, discharged, faile
 	tb = append(tb, "solvers: z3 4.8.12, z3-new 5.1.0, cvc5 1.0.3 (first definite answer; thorough tier confirms with a second solver)",
 		"govc VC generator (go/ssa -> SMT-LIB): integers modelled exactly modulo 2^n; logging calls dropped")
 	cov := map[string]interface{}{
-		"obligations":              len(discharged) + len(failed) + len(undecided),
+		// claimed obligations: discharged ones plus those reported as violations on this run; obligations listed as known
+		// findings or as knowingly undecided are reported separately below and are never counted as proved
+		"obligations":              len(discharged) + nViol,
+		"not_discharged_known_findings": len(knownHit),
+		"not_discharged_unclaimed":      len(undecided),
 		"discharged":               len(discharged),
 		"checker_cmd":              fmt.Sprintf("/verif/bin/govc check --prop %s --tier %s", id, tier),
 		"trusted_base":             tb,
